@@ -80,6 +80,13 @@ class Ctx:
             raise Infra("harness build failed: %s\n%s" % (" ".join(cmd), p.stdout[-4000:]))
         return out
 
+    def cfg(self, name, text):
+        """write a generated TLC configuration into the work directory"""
+        path = os.path.join(self.work, name)
+        with open(path, "w") as f:
+            f.write(text)
+        return path
+
     # ------------------------------------------------------------------ TLC
     def _tlc(self, module, cfg, workers, extra=(), env=None, timeout=3600, jvm=(), tag=None):
         tag = tag or (os.path.splitext(os.path.basename(cfg))[0])
@@ -131,7 +138,10 @@ class Ctx:
 
     def check_vacuity(self, r, required_actions):
         """every named action must have been taken at least once"""
-        missing = [a for a in required_actions if r.actions.get(a, 0) == 0]
+        def cnt(a):
+            alts = [a, "A" + a] + ([a[1:]] if a.startswith("A") else [])
+            return max(r.actions.get(x, 0) for x in alts)
+        missing = [a for a in required_actions if cnt(a) == 0]
         if missing:
             raise Infra("vacuous model run: actions never taken: %s" % missing)
 
@@ -273,8 +283,11 @@ class Ctx:
                 accepted_total[0] += bad
                 idxs = idxs[bad + 1:]
 
+        t_ev = time.time()
         with ThreadPoolExecutor(max_workers=min(NCPU, len(shards))) as ex:
             list(ex.map(work, range(len(shards))))
+        self.log("%s: executed+validated %d histories in %d shards, %.1fs, %d rejected" % (
+            label, len(histories), len(shards), time.time() - t_ev, len(reports)))
 
         # confirm each report by re-running that history alone
         nrep = 0
@@ -422,7 +435,7 @@ class TlcOut:
         if pm and not self.violated:
             self.violated = "Post:" + pm.group(1)
         # coverage: "<Action line .. of module M>: distinct:generated"
-        for mm in re.finditer(r"^<(\w+) line \d+, col \d+ to line \d+, col \d+ of module (\w+)>: (\d+):(\d+)", o, re.M):
+        for mm in re.finditer(r"^<(\w+) line \d+, col \d+ to line \d+, col \d+ of module (\w+)(?: \([\d ]+\))?>: (\d+):(\d+)", o, re.M):
             name, dist, gen = mm.group(1), int(mm.group(3)), int(mm.group(4))
             self.actions[name] = self.actions.get(name, 0) + gen
         if re.search(r"Parsing or semantic analysis failed|java\.lang\.\w*Error|Exception in thread|TLC threw an unexpected exception|was unable to|Unknown operator|The exception was a", o):
